@@ -520,18 +520,22 @@ func ruleInlineDispatch(c *eng.Ctx) {
 			continue
 		}
 		labels := map[string]bool{}
-		ast.Inspect(fd.Decl.Body, func(n ast.Node) bool {
-			cc, ok := n.(*ast.CaseClause)
-			if !ok {
-				return true
-			}
-			for _, e := range cc.List {
-				if tv, ok := fd.Pkg.TypesInfo.Types[e]; ok && tv.Value != nil && tv.Value.Kind() == constant.String {
-					labels[constant.StringVal(tv.Value)] = true
+		// the dispatch may sit in a helper or in a method of a collector object the decoder drives
+		for _, d := range c.P.DeclCluster(fd, 2) {
+			d := d
+			ast.Inspect(d.Decl.Body, func(n ast.Node) bool {
+				cc, ok := n.(*ast.CaseClause)
+				if !ok {
+					return true
 				}
-			}
-			return true
-		})
+				for _, e := range cc.List {
+					if tv, ok := d.Pkg.TypesInfo.Types[e]; ok && tv.Value != nil && tv.Value.Kind() == constant.String {
+						labels[constant.StringVal(tv.Value)] = true
+					}
+				}
+				return true
+			})
+		}
 		var missing, forbidden []string
 		for _, m := range sp.must {
 			if !labels[m] {
